@@ -1489,12 +1489,25 @@ func unsignedMax(t types.Type) int64 {
 	return 0
 }
 
-// foundContract: a fact about integer result #K of a (…, bool) function that holds at every return whose
-// bool result is not the constant false. Kind 0: result ≥ 0; 1: result < len(param P); 2: result <
-// len(param P [result J]).
+// foundContract: a fact about integer result #K (or integer field KF of struct result #K) of a (…, bool)
+// function that holds at every return whose bool result is not the constant false. Kind 0: result ≥ 0;
+// 1: result < len(param P); 2: result < len(param P [result J (field JF)]).
 type foundContract struct {
 	K, Kind, P, J int
+	KF, JF        string
 	desc          string
+}
+
+type virtResult struct {
+	K int
+	F string // "" for an integer result, else the integer field of a struct result
+}
+
+func (v virtResult) String() string {
+	if v.F == "" {
+		return fmt.Sprintf("#%d", v.K)
+	}
+	return fmt.Sprintf("#%d.%s", v.K, v.F)
 }
 
 func (bp *boundsProver) foundContracts(fn *ssa.Function) []foundContract {
@@ -1525,6 +1538,38 @@ func (bp *boundsProver) foundContracts(fn *ssa.Function) []foundContract {
 		return nil
 	}
 	fb := bp.forFn(fn)
+	var virt []virtResult
+	for k := 0; k < n-1; k++ {
+		if isIntType(res.At(k).Type()) {
+			virt = append(virt, virtResult{K: k})
+		} else if _, st := namedStruct(res.At(k).Type()); st != nil {
+			for i := 0; i < st.NumFields(); i++ {
+				if isIntType(st.Field(i).Type()) {
+					virt = append(virt, virtResult{K: k, F: st.Field(i).Name()})
+				}
+			}
+		}
+	}
+	// the value of a virtual result at a return
+	valueAt := func(v virtResult, ret *ssa.Return) (lin, bool) {
+		if v.F == "" {
+			return fb.linOf(ret.Results[v.K], ret, 0)
+		}
+		ld, ok := ret.Results[v.K].(*ssa.UnOp)
+		if !ok || ld.Op != token.MUL {
+			return lin{}, false
+		}
+		al, ok := ld.X.(*ssa.Alloc)
+		if !ok {
+			return lin{}, false
+		}
+		nm, _ := namedStruct(al.Type().Underlying().(*types.Pointer).Elem())
+		if nm == nil {
+			return lin{}, false
+		}
+		cls := "fld:" + nm.String() + "." + v.F
+		return linVar(fmt.Sprintf("mem(%s.%s@%s)", fb.vid(al, ld), v.F, fb.versionAt(cls, ld))), true
+	}
 	holds := func(goal func(ret *ssa.Return) (constraint, bool)) bool {
 		for _, ret := range rets {
 			g, ok := goal(ret)
@@ -1538,16 +1583,13 @@ func (bp *boundsProver) foundContracts(fn *ssa.Function) []foundContract {
 		return true
 	}
 	var out []foundContract
-	for k := 0; k < n-1; k++ {
-		if !isIntType(res.At(k).Type()) {
-			continue
-		}
-		k := k
+	for _, vk := range virt {
+		vk := vk
 		if holds(func(ret *ssa.Return) (constraint, bool) {
-			v, ok := fb.linOf(ret.Results[k], ret, 0)
+			v, ok := valueAt(vk, ret)
 			return geq(v, linConst(0), "result ≥ 0"), ok
 		}) {
-			out = append(out, foundContract{K: k, Kind: 0, desc: fmt.Sprintf("result #%d is not negative", k)})
+			out = append(out, foundContract{K: vk.K, KF: vk.F, Kind: 0, desc: fmt.Sprintf("result %s is not negative", vk)})
 		}
 		for pi, prm := range fn.Params {
 			if kindOf(prm.Type()) != KSlice && !isStringType(prm.Type()) {
@@ -1555,10 +1597,10 @@ func (bp *boundsProver) foundContracts(fn *ssa.Function) []foundContract {
 			}
 			pi, prm := pi, prm
 			if holds(func(ret *ssa.Return) (constraint, bool) {
-				v, ok := fb.linOf(ret.Results[k], ret, 0)
+				v, ok := valueAt(vk, ret)
 				return gt(fb.lenOf(prm, ret, 0), v, "result below len(param)"), ok
 			}) {
-				out = append(out, foundContract{K: k, Kind: 1, P: pi, desc: fmt.Sprintf("result #%d is a position in argument #%d", k, pi)})
+				out = append(out, foundContract{K: vk.K, KF: vk.F, Kind: 1, P: pi, desc: fmt.Sprintf("result %s is a position in argument #%d", vk, pi)})
 				continue
 			}
 			// a position in the element of the parameter selected by another result
@@ -1566,14 +1608,14 @@ func (bp *boundsProver) foundContracts(fn *ssa.Function) []foundContract {
 			if !ok || kindOf(sl.Elem()) != KSlice && !isStringType(sl.Elem()) {
 				continue
 			}
-			for j := 0; j < n-1; j++ {
-				if j == k || !isIntType(res.At(j).Type()) {
+			for _, vj := range virt {
+				if vj == vk {
 					continue
 				}
-				j := j
+				vj := vj
 				if holds(func(ret *ssa.Return) (constraint, bool) {
-					v, ok := fb.linOf(ret.Results[k], ret, 0)
-					rj, okj := fb.linOf(ret.Results[j], ret, 0)
+					v, ok := valueAt(vk, ret)
+					rj, okj := valueAt(vj, ret)
 					if !ok || !okj {
 						return constraint{}, false
 					}
@@ -1592,7 +1634,12 @@ func (bp *boundsProver) foundContracts(fn *ssa.Function) []foundContract {
 								continue
 							}
 							il, ok := fb.linOf(ia.Index, ia, 0)
-							if !ok || !il.sub(rj).isConst() || il.sub(rj).k.Sign() != 0 {
+							if !ok {
+								continue
+							}
+							eq1 := geq(il, rj, "same index")
+							eq2 := geq(rj, il, "same index")
+							if ok, _ := fb.prove(ret, []constraint{eq1, eq2}); !ok {
 								continue
 							}
 							return gt(fb.lenOf(ld, ret, 0), v, "result below len(param[result])"), true
@@ -1600,7 +1647,7 @@ func (bp *boundsProver) foundContracts(fn *ssa.Function) []foundContract {
 					}
 					return constraint{}, false
 				}) {
-					out = append(out, foundContract{K: k, Kind: 2, P: pi, J: j, desc: fmt.Sprintf("result #%d is a position in element #%d (result #%d) of argument #%d", k, j, j, pi)})
+					out = append(out, foundContract{K: vk.K, KF: vk.F, Kind: 2, P: pi, J: vj.K, JF: vj.F, desc: fmt.Sprintf("result %s is a position in the element of argument #%d selected by result %s", vk, pi, vj)})
 				}
 			}
 		}
